@@ -21,6 +21,9 @@ RULES: Dict[str, str] = {
     'R-LOAD-REAPPLY': 'sa.rules.serial:run_load_reapply',
     'R-STANDALONE-CLOSURE': 'sa.rules.standalone:run',
     'R-CACHE': 'sa.rules.cache:run',
+    'R-FORK-ALIAS': 'sa.rules.fork:run_alias',
+    'R-SHALLOW-FORK': 'sa.rules.fork:run_shallow',
+    'R-TERM-NAME-PROTOCOL': 'sa.rules.fork:run_term_names',
 }
 
 PROPERTIES: Dict[str, dict] = {}
